@@ -188,9 +188,12 @@ Alphabet ==
                   MAdd("A", x, "Int", D1("null", TRUE), None),
                   MAdd("A", x, "Int", D2("null", TRUE, "unique", TRUE), None),
                   MDel("A", x) } : x \in FieldNames }
-    [] AlphaId = 5 ->      \* field-name reuse on model A: renames, deletes, re-adds
+    [] AlphaId = 5 ->      \* field-name reuse on model A: renames, deletes, re-adds, and
+                           \* NULLs filled with two different initial values
         UNION { { MChg("A", x, None, D1("max_length", 20), None),
                   MChg("A", x, None, D1("null", TRUE), None),
+                  MChg("A", x, None, D1("null", FALSE), "i"),
+                  MChg("A", x, None, D1("null", FALSE), "j"),
                   MAdd("A", x, "Int", D1("null", TRUE), None),
                   MDel("A", x) } \cup { MRenF("A", x, y) : y \in FieldNames \ {x} }
                 : x \in FieldNames }
